@@ -260,6 +260,18 @@ func (x *Exec) applyTCP(ev Event, now time.Time) (*Viol, bool) { //nolint:gocycl
 		if ev.As != "" {
 			user = ev.As
 		}
+		if ev.Rule == "control" {
+			// ConnectionBind sent on the client's (datagram) control channel instead of a new stream connection:
+			// it cannot become a data connection, so it is refused - and a refused request changes nothing:
+			// the connection stays bindable until its deadline and is closed then
+			res := c.Request(wire.ConnectionBind, nil, func(b *wire.B) { b.U32(wire.AttrConnectionID, id) })
+			x.Trace = append(x.Trace, ev.Class()+"->"+respStr(res))
+			if res.Resp != nil && res.Resp.Class == wire.Success {
+				return x.viol("tcp", "connection-bind-over-datagram-control-channel-accepted", ev, respStr(res)), true
+			}
+
+			return nil, true
+		}
 		t.dataPort++
 		dc, err := w.Net.DialTCPAddr(&net.TCPAddr{IP: c.Addr.IP, Port: t.dataPort}, &net.TCPAddr{IP: w.SrvAddr.IP, Port: w.SrvAddr.Port})
 		if err != nil {
